@@ -11,10 +11,10 @@ CHECKS = {
 }
 CHECKS.update({
  "C04": ("exploration", "reference-model monitor: list-of-surviving-records model shadowing writer programs, then sequential/skip, random-access and seek-next-from-every-offset read-back",
-         "Seeded writer programs (incl. seek-back) x 4 compressions x buffer sizes x buffered/direct I/O are executed with the real writer and read back through every reader/access path (sequential ReadNext/SkipNext mixes through the buffered and the direct-I/O reader factory - also over files written by the buffered writer, whose size is no block multiple -, ReadNextAt, SeekNext); SeekNext is compared with the model at every byte offset of small files; payloads with long zero runs, direct-I/O files whose data end is swept across the last 32 bytes of a block and one written through an 8 MiB direct buffer are included. Exploration: bounded by the seeded case list, biased to marker bytes and buffer/page/4KiB-window boundaries.",
+         "Seeded writer programs (incl. seek-back) x 4 compressions x buffer sizes x buffered/direct I/O are executed with the real writer and read back through every reader/access path (sequential ReadNext/SkipNext mixes through the buffered and the direct-I/O reader factory - also over files written by the buffered writer, whose size is no block multiple -, ReadNextAt, SeekNext); SeekNext is compared with the model at every byte offset of small files; slices returned by the sequential reader are kept uncopied and compared again after the later calls and after Close; payloads with long zero runs, direct-I/O files whose data end is swept across the last 32 bytes of a block and one written through an 8 MiB direct buffer are included. Exploration: bounded by the seeded case list, biased to marker bytes and buffer/page/4KiB-window boundaries.",
          "trusts the 90-line independent layout parser only as a cross-check; payloads embedding a complete valid record image are excluded (format-level ambiguity)", "§3 C04", "E1"),
  "C12": ("fault_enumeration", "fault enumeration on generated files: every truncation length, every record-header byte x 255 values, every unsupported file-header value; oracle = independent layout parser + written records",
-         "For each generated file every truncation length and every single-byte alteration of every record-header byte (all 255 values on small files) is materialised and read with both readers, cut files additionally by a sequential program with SkipNext mixed in (every 4th case through the direct-I/O reader factory); every other sequential reader is closed twice before the random-access pass; the oracle demands genuine records only. Exhaustive over single-byte header damage for the generated files, sampled over files.",
+         "For each generated file every truncation length and every single-byte alteration of every record-header byte (all 255 values on small files) is materialised and read with both readers, cut files additionally by a sequential program with SkipNext mixed in (every 4th case through the direct-I/O reader factory); every other sequential reader is closed twice before the random-access pass; the oracle demands genuine records only, and the slices the sequential reader returned are compared once more after the later calls and Close. Exhaustive over single-byte header damage for the generated files, sampled over files.",
          "header byte positions come from the harness's own parser (cross-checked against the writer's offsets on the undamaged file)", "§3 C12", "E1"),
  "C14": ("exploration", "reference-model monitor: map-with-tombstones model shadowing every memstore call; flush read back through the real table reader",
          "Every result/error of seeded call sequences over all methods is compared with the model, then both flush variants are read back with the real SSTable reader (Scan and Get, nil vs empty); lookup buffers are reused, iterator results are kept and re-inspected, and the spare capacity of returned keys is overwritten; every fifth program takes all its keys as prefixes of ONE caller buffer. Exploration over seeded programs; right level for a single-threaded in-memory structure.",
